@@ -54,6 +54,48 @@ CLAIMED = {
              "one, the report holds exactly the samples/alloc/counter data of the recorded rounds at the final size, and max_time counts from before tuning.",
         note="Precision is taken as conv(step) of the virtual clock (the regime 1 <= delta <= step that C11's check validates against the real measure_precision).",
         ref="3 (C19)"),
+    "C06": dict(
+        technique="runtime monitoring: exactly-once / return-after-all / reuse oracle over broadcast event logs; plain-data visibility probe under Miri (many seeds) and TSan; ASan; stack scribbling",
+        text="On every explored history (growing/shrinking/zero thread counts, panicking subsets, delays, failpoint jitter) each index 0..=n ran exactly once, index 0 on the "
+             "caller, others on distinct reused workers, the return followed every call in the global order, par_extend results were in index order with None exactly "
+             "at panicked calls, and worker count = largest request so far. The task writes plain data read by the caller after the return, so a missing "
+             "happens-before edge or a touch of the dead task block is a Miri/TSan data race; Miri runs small histories x many seeds x preemption rates.",
+        note="Interleavings are sampled (failpoint jitter natively/TSan, Miri seeds), never enumerated; evidence lists distinct interleaving signatures seen.",
+        ref="4 (C06)"),
+    "C07": dict(
+        technique="runtime monitoring: bounded-progress monitor (every broadcast returns, every worker exits) with an exact quiescent-deadlock detector natively and Miri's deadlock detector; TSan",
+        text="Every explored history ran to completion and every worker exited after pool drop (thread-exit guards, bounded wait); hangs are decided, not timed out: "
+             "natively all threads in untimed futex waits with frozen context-switch counters (gdb stacks as witness), under Miri 'the evaluated program deadlocked' "
+             "and 'main thread terminated without waiting'. Histories aim at the lost-wake-up windows (fast workers, sleeps between decrement and unpark, stale tokens).",
+        note="Unbounded liveness restated as bounded progress; a livelock without quiescence would only show as an inconclusive watchdog.",
+        ref="4 (C07)"),
+    "C09": dict(
+        technique="runtime monitoring: mock inner allocator call log (direct mode) and two-layer sandwich monitor with per-thread depth counter during thread start-up / TLS destructors; Miri",
+        text="Every scripted request (all four methods, sizes 0..2^40, alignments 1..4096) reached the wrapped allocator exactly once with identical arguments and its "
+             "scripted result (null and sentinels included) came back unchanged; under the global sandwich LogOuter<AllocProfiler<LogInner<System>>> every outer request "
+             "saw exactly one matching inner call, depth never exceeded 1, including calls flagged first-on-thread and inside-TLS-destructor.",
+        note="Trusts the two logging layers (const-initialised destructor-free thread locals). macOS PThreadKey path unreachable on this Linux box.",
+        ref="5 (C09)"),
+    "C10": dict(
+        technique="runtime monitoring: 15-line reference tally model compared after every scripted operation on 1..8 concurrent threads, plus real allocator traffic vs. model fed by the outer log; TSan; Miri",
+        text="After every operation of every explored sequence (lengths 0..5000, sizes 0..2^40, shrink to 0, equal-size realloc, frees beyond the clear, mid-sequence clears) "
+             "the thread's tally equals the model: per-op counts and byte sums, signed live count/bytes, true maxima over all prefixes; each thread matches its own model "
+             "while others run.",
+        note="A failed (null) request counts as an operation; equal-size realloc accepted in either bucket with 0 bytes.",
+        ref="5 (C10)"),
+    "C11": dict(
+        technique="runtime monitoring of the real conversion functions against an exact big-integer reference + metamorphic relations; real measure_precision under stepped virtual clocks; Miri",
+        text="Hundreds of thousands (quick) to tens of millions (thorough) of boundary-dense and random (a, b, f) triples agree with floor((b-a)*10^12/f) (0 for b<a), are "
+             "monotone, additive up to 1 ps and translation invariant; Durations up to u64::MAX seconds convert to nanos*1000; the real measure_precision returns the step "
+             "of every uniform virtual clock tried.",
+        note="Precision clause in the regime 1 <= read cost <= step; the OS timer cannot be scripted.",
+        ref="5 (C11)"),
+    "C18": dict(
+        technique="runtime monitoring of the real formatters against an exact integer model (durations) and an exact-rational truncation oracle (throughput, bytes, plain numbers); Miri",
+        text="Every explored duration string equals the truthful truncation computed in exact integers; every throughput/byte/number string parses back to a value with the right "
+             "prefix that is <= the exact rational and less than one unit of the last allowed place below it, without trailing zeros or exponent; 0 and inf cases; no panic.",
+        note="Float path compared with 1e-11 relative tolerance; only default (table) formatting is judged.",
+        ref="5 (C18)"),
 }
 
 NOT_YET = {}
